@@ -111,6 +111,7 @@ func Load(dir string, goarch string) (*Prog, error) {
 			p.SPkg[sp.Pkg.Path()] = sp
 		}
 	}
+	CurrentProg = p
 	return p, nil
 }
 
